@@ -19,6 +19,7 @@ import (
 	"fmt"
 	"math/rand/v2"
 	"os"
+	"runtime"
 	"runtime/debug"
 	"slices"
 	"sort"
@@ -641,6 +642,11 @@ func runFile(r *vcommon.Report, fi int, rng *rand.Rand, fut *fileUnderTest, base
 			violate(r, "read-panic", fmt.Sprintf("%s file %d [%s] corruption %s: op %s panicked in %s: %s", fut.kind, fi, fut.desc, c, v.op, v.where, strings.SplitN(v.detail, "\n", 2)[0]),
 				replay(), map[string]any{"where": v.where, "pattern": c.pattern, "kind": fut.kind})
 			r.SetAdd("panic_sites", v.where)
+			// A recovered panic may leave pooled objects (sync.Pool of buffer
+			// pools, iterators, fetchers) in a half-used state which would make
+			// unrelated later reads panic. Two GC cycles empty every sync.Pool.
+			runtime.GC()
+			runtime.GC()
 		default:
 			r.Inconclusive("harness problem at file %d corruption %s: %s", fi, c, v.detail)
 		}
@@ -700,12 +706,6 @@ func TestVerifC27(t *testing.T) {
 				layout = o.lines
 			case "scan-fwd":
 				npoints = len(o.lines)
-			case "props":
-				for _, l := range o.lines {
-					if strings.Contains(l, "value-blocks.num") && !strings.HasSuffix(l, ": 0") {
-						r.Count("tables_with_value_blocks", 1)
-					}
-				}
 			}
 		}
 		if npoints != bt.nPoints {
@@ -728,6 +728,9 @@ func TestVerifC27(t *testing.T) {
 		for _, l := range layout {
 			if strings.HasPrefix(l, "topindex") {
 				r.Count("tables_two_level_index", 1)
+			}
+			if strings.HasPrefix(l, "valueindex") {
+				r.Count("tables_with_value_blocks", 1)
 			}
 		}
 		r.Count("points_written", int64(bt.nPoints))
